@@ -16,6 +16,8 @@ class ScriptControl:
     def __init__(self, file_name, run_background=False, title='', path='',
                 background='', color='', icon=''):
         self.file_name = html.escape(file_name)
+        # The name as given in the manifest; this is the file to open.
+        self.script_file = file_name
         self.run_background = run_background
         self.path = html.escape(path)
         self.title = html.escape(title)
@@ -58,7 +60,7 @@ class WebApp:
     @inject(Settings)
     def queue_script(self, script_control, settings):
         fname = join(
-            settings.get_value("script_path", "."), script_control.file_name)
+            settings.get_value("script_path", "."), script_control.script_file)
         job = ScriptJob.from_file(fname)
         if script_control.run_background:
             self._jobs.spawn_job(job, script_control.path)
